@@ -887,6 +887,7 @@ func (e *exec) read(uuid string, s readSpec) (reading, error) {
 				val = c
 			}
 			lines = append(lines, kv.Key+" "+val)
+			out.order = append(out.order, kv.Key)
 		}
 		sort.Strings(lines)
 		out.norm = strings.Join(lines, "\n")
@@ -969,38 +970,8 @@ func (e *exec) checkSnapshots(what string) error {
 	return nil
 }
 
-func (e *exec) compare(cmp njCompare, what string) error {
-	m := e.lines[0]
-	if err := e.checkSnapshots(what + " (earlier committed versions, before committing the head)"); err != nil {
-		return err
-	}
-	if err := drive.Commit(m.leaf); err != nil {
-		return fmt.Errorf("%s: commit: %v", what, err)
-	}
-	S := m.leaf
-	M, err := drive.NewVersion(S)
-	if err != nil {
-		return fmt.Errorf("%s: newversion: %v", what, err)
-	}
-	e.nbranch++
-	B, err := drive.Branch(S, fmt.Sprintf("cmp%d", e.nbranch))
-	if err != nil {
-		return fmt.Errorf("%s: branch: %v", what, err)
-	}
-	m.leaf = M
-	e.snaps = append(e.snaps, snapshot{uuid: S, st: m.st.Clone()})
-	if e.armed {
-		e.nontrivial = true
-	}
-	hasIntegral := false
-	for _, b := range m.st {
-		for _, v := range b {
-			if model.NJIsIntegralFloat(v.Raw) {
-				hasIntegral = true
-			}
-		}
-	}
-	ids := m.st.IDs()
+// buildSpecs lists the reads of one comparison point.
+func (e *exec) buildSpecs(cmp njCompare) []readSpec {
 	// keys to probe: every pool id (existing or not)
 	probe := append([]uint64(nil), e.c.Pool...)
 	var specs []readSpec
@@ -1068,6 +1039,42 @@ func (e *exec) compare(cmp njCompare, what string) error {
 	for _, s := range []string{"json_schema", "schema", "schema_batch"} {
 		add(readSpec{name: "GET-" + s, method: "GET", url: s, kind: "raw"})
 	}
+	return specs
+}
+
+func (e *exec) compare(cmp njCompare, what string) error {
+	m := e.lines[0]
+	if err := e.checkSnapshots(what + " (earlier committed versions, before committing the head)"); err != nil {
+		return err
+	}
+	if err := drive.Commit(m.leaf); err != nil {
+		return fmt.Errorf("%s: commit: %v", what, err)
+	}
+	S := m.leaf
+	M, err := drive.NewVersion(S)
+	if err != nil {
+		return fmt.Errorf("%s: newversion: %v", what, err)
+	}
+	e.nbranch++
+	B, err := drive.Branch(S, fmt.Sprintf("cmp%d", e.nbranch))
+	if err != nil {
+		return fmt.Errorf("%s: branch: %v", what, err)
+	}
+	m.leaf = M
+	e.snaps = append(e.snaps, snapshot{uuid: S, st: m.st.Clone()})
+	if e.armed {
+		e.nontrivial = true
+	}
+	hasIntegral := false
+	for _, b := range m.st {
+		for _, v := range b {
+			if model.NJIsIntegralFloat(v.Raw) {
+				hasIntegral = true
+			}
+		}
+	}
+	ids := m.st.IDs()
+	specs := e.buildSpecs(cmp)
 
 	oracle := func() error {
 		for _, s := range specs {
